@@ -59,9 +59,33 @@ func optCoq(s string) string {
 func chanOut(k int, c chanobs.Chan) string { return chanobs.Out(k, c.Coq()) }
 
 type gen struct {
-	s    *cases.Set
-	r    *cq.RNG
-	seen map[string]bool
+	s      *cases.Set
+	r      *cq.RNG
+	seen   map[string]bool
+	lo, hi uint32 // span of the own frequencies of the band being processed
+}
+
+// span of the frequencies a fresh instance of the band uses itself: uplink and
+// downlink channels, RX2, ping-slot.
+func ownSpan(cfg chanobs.Config) (uint32, uint32) {
+	b := cfg.New()
+	fs := []uint32{b.GetDefaults().RX2Frequency}
+	for _, c := range chanobs.Uplinks(b) {
+		fs = append(fs, c.Freq)
+	}
+	for _, c := range chanobs.Downlinks(b) {
+		fs = append(fs, c.Freq)
+	}
+	lo, hi := fs[0], fs[0]
+	for _, f := range fs {
+		if f < lo {
+			lo = f
+		}
+		if f > hi {
+			hi = f
+		}
+	}
+	return lo, hi
 }
 
 // history runs one history on the implementation and records the CHist case
@@ -149,6 +173,7 @@ func (g *gen) history(tag string, cfg chanobs.Config, ops []chanobs.Op) {
 
 	// ---- band outputs through the MAC-layer encoders ------------------------
 	name := string(cfg.Name)
+	g.lo, g.hi = ownSpan(cfg)
 	for i, c := range upc {
 		if c.MinDR >= 0 && c.MinDR <= 255 && c.MaxDR >= 0 && c.MaxDR <= 255 {
 			g.newChannel(name, uint8(i), c)
@@ -206,10 +231,10 @@ func (g *gen) freqCase(bandName, cmd string, kind int, ins []int64, own bool, en
 		}
 	}
 	g.s.Add(cases.Case{
-		Term: fmt.Sprintf("CFreq %d %s %s %s %s", kind, cq.Zs(ins), cq.Bool(own), oe, od),
+		Term: fmt.Sprintf("CFreq %d %s %s %s %s %s %s", kind, cq.Zs(ins), cq.Bool(own), cq.Z(int64(g.lo)), cq.Z(int64(g.hi)), oe, od),
 		Key:  key, Kind: "encode-" + cmd + "-" + who(own), Nontrivial: true,
 		Replay: map[string]interface{}{"api": "lorawan." + cmd + "Payload.MarshalBinary/UnmarshalBinary", "band": bandName, "fields": ins,
-			"band_own_frequency": own, "encode_error": fmt.Sprint(encErr), "decoded": dec}})
+			"band_own_frequency": own, "band_own_span": []uint32{g.lo, g.hi}, "encode_error": fmt.Sprint(encErr), "decoded": dec}})
 }
 
 func (g *gen) newChannel(bandName string, idx uint8, c chanobs.Chan) {
@@ -274,6 +299,13 @@ func (g *gen) beacon(bandName string, f uint32) {
 func (g *gen) cflist(cfg chanobs.Config, version string, ops []chanobs.Op, cf *lorawan.CFList) {
 	term := cflistCoq(cf)
 	shape := "channels"
+	if cp, ok := cf.Payload.(*lorawan.CFListChannelPayload); ok {
+		for _, f := range cp.Channels {
+			if f/100 >= 1<<24 {
+				shape = "channels:above-24bit"
+			}
+		}
+	}
 	if mp, ok := cf.Payload.(*lorawan.CFListChannelMaskPayload); ok {
 		shape = "masks:last-nonzero"
 		if len(mp.ChannelMasks) > 0 && mp.ChannelMasks[len(mp.ChannelMasks)-1] == (lorawan.ChMask{}) {
@@ -307,7 +339,7 @@ func (g *gen) cflist(cfg chanobs.Config, version string, ops []chanobs.Op, cf *l
 			}
 		}
 	}
-	g.s.Add(cases.Case{Term: fmt.Sprintf("CCFList %s %s %s", term, oe, od), Key: key, Kind: "cflist-" + strings.Split(shape, ":")[0], Nontrivial: true, Replay: rp})
+	g.s.Add(cases.Case{Term: fmt.Sprintf("CCFList %s %s %s %s %s", term, cq.Z(int64(g.lo)), cq.Z(int64(g.hi)), oe, od), Key: key, Kind: "cflist-" + strings.Split(shape, ":")[0], Nontrivial: true, Replay: rp})
 }
 
 func main() {
@@ -342,9 +374,9 @@ func main() {
 	// C15-4: user channel between 1.2 GHz and 2^24*100 Hz through NewChannelReq
 	g.history("witness-newchannel-1300mhz", byName(band.EU868), []chanobs.Op{chanobs.Add(1300000000, 0, 5)})
 
-	rounds := 5
+	rounds := 10
 	if thorough {
-		rounds = 150
+		rounds = 300
 	}
 	for round := 0; round < rounds; round++ {
 		for _, name := range chanobs.Names {
